@@ -149,7 +149,7 @@ theorem commandService_ring (D : Desc) (s : St) (i : SvcIn) : Keeps (RingInv D) 
   · exact hi.congr (by simp)
   · exact hi.congr (by simp)
   · exact hi.congr (by simp)
-  · exact hi.congr (by simp [printCmdList]; rr)
+  · exact hi.congr (by simp [printCmdList, printCmdForm]; rr)
 
 
 theorem checkUnsolicitedBuffers_ring (D : Desc) (s : St) : Keeps (RingInv D) s (checkUnsolicitedBuffers D s) := by
